@@ -21,7 +21,6 @@ import (
 	"github.com/ipfs/go-cid"
 	"github.com/ipni/go-libipni/announce"
 	"github.com/ipni/go-libipni/announce/message"
-	pubsub "github.com/libp2p/go-libp2p-pubsub"
 	"github.com/libp2p/go-libp2p"
 	"github.com/libp2p/go-libp2p/core/host"
 	"github.com/libp2p/go-libp2p/core/peer"
@@ -29,6 +28,7 @@ import (
 	"github.com/multiformats/go-multihash"
 
 	"verifharness/internal/ids"
+	"verifharness/internal/psenv"
 	"verifharness/internal/rep"
 )
 
@@ -165,63 +165,6 @@ func errName(err error) string {
 	return "err:" + err.Error()
 }
 
-// psEnv is a pair of connected libp2p hosts on one gossipsub topic: h1 carries the Receiver under test (and a probe
-// subscription of the harness, which also keeps h1 subscribed between receivers), h2 is the remote publisher / relay.
-type psEnv struct {
-	h1, h2 host.Host
-	t1, t2 *pubsub.Topic
-	probe  *pubsub.Subscription
-	cancel context.CancelFunc
-}
-
-var (
-	psOnce sync.Once
-	psInst *psEnv
-	psErr  error
-)
-
-func getPsEnv() (*psEnv, error) {
-	psOnce.Do(func() {
-		e := &psEnv{}
-		var ctx context.Context
-		ctx, e.cancel = context.WithCancel(context.Background())
-		mk := func() (host.Host, *pubsub.Topic, error) {
-			h, err := libp2p.New(libp2p.ListenAddrStrings("/ip4/127.0.0.1/tcp/0"))
-			if err != nil {
-				return nil, nil, err
-			}
-			ps, err := pubsub.NewGossipSub(ctx, h)
-			if err != nil {
-				return nil, nil, err
-			}
-			t, err := ps.Join("/verif/c09")
-			return h, t, err
-		}
-		if e.h1, e.t1, psErr = mk(); psErr != nil {
-			return
-		}
-		if e.h2, e.t2, psErr = mk(); psErr != nil {
-			return
-		}
-		if e.probe, psErr = e.t1.Subscribe(); psErr != nil {
-			return
-		}
-		if psErr = e.h2.Connect(ctx, peer.AddrInfo{ID: e.h1.ID(), Addrs: e.h1.Addrs()}); psErr != nil {
-			return
-		}
-		deadline := time.Now().Add(5 * time.Second)
-		for len(e.t2.ListPeers()) == 0 { // h2 has learned that h1 is subscribed
-			if time.Now().After(deadline) {
-				psErr = errors.New("gossipsub peers did not learn of each other's subscription")
-				return
-			}
-			time.Sleep(2 * time.Millisecond)
-		}
-		psInst = e
-	})
-	return psInst, psErr
-}
-
 // watcher progress observed through the (non-parking) yield hook
 var (
 	wNext, wSend atomic.Int64
@@ -255,12 +198,12 @@ func replayReceiver(b *behaviour, watchdog time.Duration, withTopic bool) (key, 
 		usesPubsub = usesPubsub || strings.HasPrefix(st.Op, "pubsub-")
 	}
 	ropts := []announce.Option{announce.WithAllowPeer(allow), announce.WithFilterIPs(true)}
-	var ps *psEnv
+	var ps *psenv.Env
 	var pmu sync.Mutex // guards what the watcher's allow callback reads
 	h2Allowed := false
 	plainBy := map[string]string{} // CID -> model peer of the "plain" pubsub step that announced it (the remote host itself)
 	show := func(a announce.Announce) string {
-		if ps != nil && a.PeerID == ps.h2.ID() {
+		if ps != nil && a.PeerID == ps.H2.ID() {
 			// attributed to the remote host: right only for a message that host published for itself
 			pmu.Lock()
 			name, ok := plainBy[a.Cid.String()]
@@ -275,26 +218,26 @@ func replayReceiver(b *behaviour, watchdog time.Duration, withTopic bool) (key, 
 	}
 	if usesPubsub {
 		var err error
-		if ps, err = getPsEnv(); err != nil {
+		if ps, err = psenv.Get(); err != nil {
 			return "infra", err.Error(), 0
 		}
-		h = ps.h1
+		h = ps.H1
 		inner := allow
 		allow = func(p peer.ID) bool {
 			pmu.Lock()
 			defer pmu.Unlock()
-			if p == ps.h2.ID() {
+			if p == ps.H2.ID() {
 				return h2Allowed // the remote host publishing for itself: allowed or not as the step says
 			}
 			return inner(p)
 		}
-		ropts = []announce.Option{announce.WithAllowPeer(allow), announce.WithFilterIPs(true), announce.WithTopic(ps.t1)}
+		ropts = []announce.Option{announce.WithAllowPeer(allow), announce.WithFilterIPs(true), announce.WithTopic(ps.T1)}
 		announce.VerifYield = observeWatcher
 		defer func() { announce.VerifYield = nil }()
 		// drain what earlier behaviours left in the probe subscription
 		for drained := false; !drained; {
 			dctx, c := context.WithTimeout(context.Background(), 3*time.Millisecond)
-			_, err := ps.probe.Next(dctx)
+			_, err := ps.Probe.Next(dctx)
 			c()
 			drained = err != nil
 		}
@@ -398,7 +341,7 @@ func replayReceiver(b *behaviour, watchdog time.Duration, withTopic bool) (key, 
 			cids[c.String()] = st.Cid
 			m := message.Message{Cid: c}
 			m.SetAddrs(addrsOf(st.Addrs))
-			tp := ps.t2
+			tp := ps.T2
 			pmu.Lock()
 			switch st.Op {
 			case "pubsub-plain": // sent by the publisher itself: the remote host is the source peer
@@ -410,7 +353,7 @@ func replayReceiver(b *behaviour, watchdog time.Duration, withTopic bool) (key, 
 				m.OrigPeer = ids.Peer("rcv-" + st.Peer).String()
 			case "pubsub-self": // a re-publication by the receiver's own host
 				m.OrigPeer = ids.Peer("rcv-" + st.Peer).String()
-				tp = ps.t1
+				tp = ps.T1
 			}
 			pmu.Unlock()
 			var buf bytes.Buffer
@@ -422,7 +365,7 @@ func replayReceiver(b *behaviour, watchdog time.Duration, withTopic bool) (key, 
 				return "infra", "publish: " + err.Error(), i
 			}
 			pctx, pc := context.WithTimeout(context.Background(), watchdog)
-			_, err := ps.probe.Next(pctx)
+			_, err := ps.Probe.Next(pctx)
 			pc()
 			if err != nil {
 				return "infra", "pubsub message did not arrive at the receiver's host: " + err.Error(), i
